@@ -38,6 +38,7 @@ type Engine struct {
 	rawMod     map[*ssa.Function]*ModInfo
 	ignorePure bool
 	sigIndex   map[string][]*ssa.Function
+	srcCache   map[string][]string
 	tables     map[string]*TableInfo
 	frozen     map[string]bool
 	usedC      map[string]map[string]bool
@@ -403,4 +404,28 @@ func (c *FnCtx) havocMod(exist, fresh map[string]bool, why string) {
 		}
 	}
 	c.havocHeap("$wm")
+}
+
+// srcLine: trimmed text of a source line of the module (empty for files outside it or contract files)
+func (e *Engine) srcLine(file string, line int) string {
+	if !strings.HasPrefix(file, e.RepoDir) || strings.Contains(file, "verif_contracts") {
+		return ""
+	}
+	e.mu.Lock()
+	defer e.mu.Unlock()
+	if e.srcCache == nil {
+		e.srcCache = map[string][]string{}
+	}
+	ls, ok := e.srcCache[file]
+	if !ok {
+		b, err := os.ReadFile(file)
+		if err == nil {
+			ls = strings.Split(string(b), "\n")
+		}
+		e.srcCache[file] = ls
+	}
+	if line < 1 || line > len(ls) {
+		return ""
+	}
+	return strings.TrimSpace(ls[line-1])
 }
